@@ -157,6 +157,13 @@ fn main() {
                     Err(e) => println!("query error: {e:?}"),
                     Ok(q) => {
                         let mut c = tree_sitter::QueryCursor::new();
+                        let txt = vengine::model::text::Text::new(bytes.clone());
+                        let rng = |v: &str| -> (usize, usize) { let mut it = v.split(','); (it.next().unwrap().parse().unwrap(), it.next().unwrap().parse().unwrap()) };
+                        if let Ok(v) = std::env::var("VERIF_CBYTES") { let (a, b) = rng(&v); c.set_containing_byte_range(a..b); }
+                        if let Ok(v) = std::env::var("VERIF_CPOINTS") { let (a, b) = rng(&v); c.set_containing_point_range(txt.point_of(a)..txt.point_of(b)); }
+                        if let Ok(v) = std::env::var("VERIF_BYTES") { let (a, b) = rng(&v); c.set_byte_range(a..b); }
+                        if let Ok(v) = std::env::var("VERIF_POINTS") { let (a, b) = rng(&v); c.set_point_range(txt.point_of(a)..txt.point_of(b)); }
+                        if let Ok(v) = std::env::var("VERIF_LIMIT") { c.set_match_limit(v.parse().unwrap()); }
                         let mut ms = c.matches(&q, tree.root_node(), bytes.as_slice());
                         while let Some(m) = ms.next() {
                             let caps: Vec<String> = m.captures.iter().map(|c| format!("@{}={}[{}..{}]", q.capture_names()[c.index as usize], c.node.kind(), c.node.start_byte(), c.node.end_byte())).collect();
